@@ -76,6 +76,17 @@ class PROP(Prop):
                         f2 = cligen.frame(proto, 8, slave, mb.spec_req_pdu(("RSI",)))
                         line = "SRV %s d%s,d%s - - r=%s,r=RSI:1:1:-" % (proto, f1.hex(), f2.hex(), mb.show_rsp(rsp))
                         cs.append(Case(line, {"k": "rsp", "proto": proto, "slave": slave, "rsp": mb.show_rsp(rsp), "n": n, "limit": limit, "kind": kind}, prof))
+        # a refused request touches the transport in no way, also when an earlier call left (part of) its frame unsent
+        for proto in ("tcp", "rtu"):
+            for _ in range(40 if tier == "quick" else 400):
+                slave = rng.randrange(256)
+                first = ("RHR", rng.randrange(65536), 1)
+                k = rng.randrange(0, 6)
+                W1 = rng.choice([("a%d," % k if k else "") + "e:TimedOut", ("a%d," % k if k else "") + "p"])
+                op1 = cligen.call_op(first, W=W1, drop="0" if W1.endswith("p") else "-")
+                big = rng.choice([("WMR", 7, [1] * rng.randrange(124, 140)), ("WMC", 7, [True] * rng.randrange(1977, 2100)), ("CU", 0x41, bytes(rng.randrange(253, 300))), ("RWMR", 1, 1, 2, [5] * rng.randrange(122, 130))])
+                # the transport would accept everything now: whatever the refused call writes is a violation
+                cs.append(Case(cligen.cli_line(proto, slave, [op1, cligen.call_op(big, typed=(big[0] != "CU" and rng.random() < 0.5))]), {"k": "refused_after_pending", "proto": proto, "accepted": k, "kind": big[0], "n": 1, "limit": 0}, "debug"))
         return cs
 
     def key(self, c):
@@ -85,6 +96,12 @@ class PROP(Prop):
         m = c.meta
         if "PANIC" in (c.impl or "") or "CRASH" in (c.impl or ""):
             return "panic"
+        if m["k"] == "refused_after_pending":
+            rs = cligen.split_results(c.impl)
+            r1, w1 = cligen.res_and_w(rs[1]) if len(rs) > 1 else ("", b"")
+            if r1 != "T:InvalidInput":
+                return "oversized request after a call that left bytes unsent: not refused with InvalidInput: %s" % r1[:60]
+            return None if not len(w1) else "the refused request made the client write %d bytes (%s...) to the transport" % (len(w1), w1.hex()[:40])
         if m["k"] == "req":
             rs = cligen.split_results(c.impl)
             r0, w0 = cligen.res_and_w(rs[0])
